@@ -18,7 +18,7 @@ def run(chk, tier):
                 'MutexIsh::locked call only mock-internal std code (no user code under a lock => no poisoning). R11.4: after a caught user panic '
                 'verification reflects the calls actually matched: the match counter is bumped from one site, only for the pattern the selector '
                 'returned, i.e. after every matcher / Debug call of the selection has returned.')
-    for cfg in configs(tier, thorough=('std', 'mocks')):
+    for cfg in configs(tier, quick=('std', 'full'), thorough=('std', 'mocks', 'full')):
         F = load(chk, cfg)
         fn, paths, rows = L.teardown_table(chk, F, 'R11.1', cfg)
         L.no_panic_unless_not_panicking(chk, F, 'R11.1', cfg, fn, rows)
